@@ -190,7 +190,7 @@ func cmdFunc(args []string) {
 				if !ok && r.Status == "sat" && len(r.Model) > 0 {
 					var ks []string
 					for k := range r.Model {
-						if strings.HasPrefix(k, "p_") || strings.HasPrefix(k, "res_") {
+						if strings.HasPrefix(k, "p_") {
 							ks = append(ks, k)
 						}
 					}
